@@ -23,7 +23,7 @@ BASE = dict(
     Ops=fs("create", "update", "delete"), MaxOps=2, MaxTx=6, TxKinds=fs("update"), SysCtxs=fs(False), Vias=fs("people"),
     NamePool=fs(), IdNames=True, NickPool=fs(NIL), RolePool=fs(fs()), BossPool=fs(NIL), TeamPool=fs(NIL), SysPool=fs(False),
     LeadPool=fs(False), GradePool=fs("g1"), LtPool=fs(fs(NIL)), FieldSets=Sub("FS_All"), VetoPool=fs(False), OpSysPool=fs(False), PrePool=fs(),
-    CountPool=fs(), MaxRc=3, IdOrder=Sub("Order2"), WhereKinds=fs(), ChildFeatures=False, ChiefPool=fs(NIL),
+    CountPool=fs(), MaxRc=3, IdOrder=Sub("Order2"), WhereKinds=fs(), ChildFeatures=False, ChiefPool=fs(NIL), SysScope="parent",
 )
 
 THREE = dict(Ids=fs("p1", "p2", "p3"), IdOrder=Sub("Order3"))
@@ -138,6 +138,8 @@ C16 = family("C16", BASE, Teams=fs("t1"), TeamMode="conCascadeNull", SysCtxs=fs(
              Vias=fs("people", "staff"), Ops=fs("create", "update", "delete", "createTeam", "deleteTeam"),
              NickPool=fs(NIL, "x"), TeamPool=fs(NIL, "t1"), FieldSets=Sub("FS_C16"), MaxOps=3)
 
+
+family("C16_child", C16, SysScope="child")
 
 # bounds of the exhaustive runs, fitted to measured state counts (bin/size.py): quick finishes in well under a minute,
 # thorough in minutes.  Generation (simulation) always uses the richer family tables above.
